@@ -102,6 +102,7 @@ class C17(core.Check):
     thorough_budget_s = 1500.0
     chunk = 250
     run_timeout_s = 20.0
+    isolate = True  # module- or class-level state of the dict classes must not leak from one history into the next
     rule = (
         "one evaluation = one seeded history of 1-40 dict-API operations on a population of live "
         "CaseInsensitiveOrderedDict objects and their reference models (get/set/del/in/get/pop/"
@@ -146,6 +147,8 @@ class C17(core.Check):
             return ["f", r.choice([0.5, 1.0, -2.25])]
         if depth >= 2:
             return ["i", 3]
+        if c < 0.745:  # a plain built-in dict as a value (what a user writes by hand), keys in any case
+            return ["pd", [[r.choice(["Wms_Title", "a", "B", "name"]), ["s", r.choice(["t", "v"])]] for _ in range(r.randint(0, 2))]]
         if c < 0.77:  # POINTS-like: list of lists (of lists)
             return ["l", [["l", [["i", 1], ["l", [["i", 2]]] if r.random() < 0.3 else ["i", 2]]] for _ in range(r.randint(1, 2))]]
         if c < 0.86:
@@ -176,6 +179,8 @@ class C17(core.Check):
             return spec[1]
         if t == "l":
             return [self.build_real(v) for v in spec[1]]
+        if t == "pd":
+            return {k: self.build_real(v) for k, v in spec[1]}
         if t == "d":
             d = self.CI(self.factory_obj(spec[1]))
             for k, v in spec[2]:
@@ -191,6 +196,8 @@ class C17(core.Check):
             return spec[1]
         if t == "l":
             return [self.build_model(v) for v in spec[1]]
+        if t == "pd":
+            return {k: self.build_model(v) for k, v in spec[1]}  # stored as it is: an ordinary dict does not touch its values
         if t == "d":
             return M(spec[1], [(k, self.build_model(v)) for k, v in spec[2]])
         raise core.HarnessError(f"bad spec {spec}")
@@ -208,6 +215,8 @@ class C17(core.Check):
         return core.freeze(x)
 
     def norm_model(self, x, depth=0):
+        if isinstance(x, dict):
+            return ["D", "dict", "other:'nofactoryattr'", [[k, self.norm_model(v, depth + 1)] for k, v in x.items()]]
         if isinstance(x, M):
             return ["D", "CaseInsensitiveOrderedDict", x.factory, [[k, self.norm_model(v, depth + 1)] for k, v in x.d.items()]]
         if isinstance(x, list):
@@ -332,6 +341,9 @@ class C17(core.Check):
                 steps += r["steps"]
                 cover.update(r.get("cover", ()))
                 if r["violation"]:
+                    # the single sequence is offered as the replay; the batch runner checks in a pristine process
+                    # that it fails on its own and otherwise keeps the whole block (state kept by the library
+                    # between the histories of one block) as the replay
                     r["case_explicit"] = {"prop": "C17", "seed": case.get("seed", 0), "init": init, "ops": [first] + list(rest)}
                     r["stats"] = {"exhaustive.sequences": total}
                     return r
@@ -400,6 +412,9 @@ class C17(core.Check):
                     rr = core.call(lambda: real.__setitem__(op[2], rv))
                     mr = core.call(lambda: model.d.__setitem__(op[2].lower(), mv))
                     mutated = True
+                    if rr[0] == "ok" and isinstance(rv, (dict, list)) and real.get(op[2]) is not rv:
+                        violation = viol("stored_value_is_not_the_object_given", op, {"given": type(rv).__name__, "stored": type(real.get(op[2])).__name__})
+                        break
                 elif name == "delitem":
                     rr = core.call(lambda: real.__delitem__(op[2]))
                     mr = core.call(lambda: model.d.__delitem__(op[2].lower()))
@@ -697,7 +712,12 @@ class C17(core.Check):
             raise RuntimeError("restart failed: " + p.stderr.decode()[-300:])
         return pickle.loads(p.stdout)
 
+    def shrink_fields(self, case):
+        return [] if "exhaustive" in case else [["ops"]]
+
     def shrink_candidates(self, case):
+        if "exhaustive" in case:
+            return
         # simpler values, simpler initial dict
         if case["init"][2]:
             c = core.set_path(case, ["init"], ["d", case["init"][1], []])
